@@ -56,9 +56,10 @@ HELPER = "checks_shared.py"
 class World:
     """the harness' view of the project: tests per file, each test = (payload expr, suffix or None, snapshot arg text or None)"""
 
-    def __init__(self, rng, settings):
+    def __init__(self, rng, settings, plain=False):
         self.rng = rng
         self.settings = settings
+        self.plain = plain  # scripted histories: no payloads that make a test (or the import) fail on their own
         self.files = {"test_a.py": {}}
         self.counter = 0
         for _ in range(rng.randint(2, 4)):
@@ -71,13 +72,13 @@ class World:
             return (repr(f"text {self.counter} é\n"), None)
         if k == "bytes":
             return (repr(b"\x00bin %d" % self.counter), None)
-        return (repr(f"log {self.counter}"), self.rng.choice([".log", ".json", ".png", ".tar.gz", ".min.js"]))  # multi-part suffixes are rejected by the tool: nothing may reference them
+        return (repr(f"log {self.counter}"), self.rng.choice([".log", ".json", ".png"] if self.plain else [".log", ".json", ".png", ".tar.gz", ".min.js"]))  # multi-part suffixes are rejected by the tool: nothing may reference them
 
     def add_test(self, fname, payload=None):
         self.counter += 1
         prefix = "check_" if fname == HELPER else "test_"
         # module_level: the data is outsourced while the module is imported (a constant), not inside the test
-        self.files.setdefault(fname, {})[f"{prefix}{self.counter}"] = {"payload": payload or self.new_payload(), "arg": None, "module_level": self.rng.random() < 0.2}
+        self.files.setdefault(fname, {})[f"{prefix}{self.counter}"] = {"payload": payload or self.new_payload(), "arg": None, "module_level": self.rng.random() < 0.2 and not self.plain}
 
     def source(self, fname, args=None):
         L = ["from inline_snapshot import snapshot, outsource, external", "from inline_snapshot import external as ext", "", "", "def _boom(x):", "    raise RuntimeError('bug in the code under test')", ""]
@@ -139,12 +140,12 @@ def matches(ref, name):
 
 
 SCRIPTS = [
-    (12, [("none", "create"), ("break_test", "trim"), ("none", "none")]),
+    (12, [("none", "create"), ("break_all_tests", "trim"), ("none", "none")]),
     (12, [("none", "create"), ("break_import", "trim"), ("repair_import", "none"), ("none", "disable")]),
     (12, [("none", "create"), ("alias_reference", "trim"), ("none", "none"), ("none", "disable")]),
     (12, [("add_helper_check", "create"), ("none", "trim"), ("none", "none"), ("none", "disable")]),
     (12, [("none", "create"), ("same_bytes_other_suffix", "create"), ("none", "none"), ("none", "disable")]),
-    (12, [("none", "all"), ("break_test", "all"), ("none", "disable")]),
+    (12, [("none", "all"), ("break_all_tests", "all"), ("none", "disable")]),
     (8, [("none", "create"), ("change_hash_length:16", "trim"), ("none", "none"), ("none", "disable")]),
     (12, [("none", "all"), ("shorten_reference", "trim"), ("none", "none")]),
     (12, [("none", "create,fix"), ("shorten_reference", "all"), ("change_hash_length:64", "trim"), ("none", "none")]),
@@ -157,7 +158,7 @@ def run_history(rng, args, out, C, hidx, script=None):
     if script:
         hash_length = script[0]
     settings = {"hash_length": hash_length, "storage_dir": sd_kind}
-    w = World(rng, dict(settings))
+    w = World(rng, dict(settings), plain=bool(script))
     proj = session.Project({}, with_vp=False)
     try:
         pp = ["[tool.inline-snapshot]", f"hash-length={hash_length}"]
@@ -197,6 +198,11 @@ def run_history(rng, args, out, C, hidx, script=None):
             elif edit == "equal_payloads" and len(fnames) > 1:
                 src_t = rng.choice(list(w.files["test_a.py"].values()))
                 w.add_test("test_b.py", payload=src_t["payload"])
+            elif edit == "break_all_tests":
+                # every test of the file raises before its snapshot: no snapshot() call of the file is evaluated
+                for t in w.files["test_a.py"].values():
+                    t["broken"] = True
+                C["broken_test_steps"] = C.get("broken_test_steps", 0) + 1
             elif edit == "break_import":
                 # a collection error: the file takes part in the session, none of its tests is executed
                 w.unimportable = getattr(w, "unimportable", set()) | {f0 if f0 != HELPER else "test_a.py"}
